@@ -7,4 +7,10 @@ PROPS = {
         "explanation": "theorems about Model/Lit.v (transcription of PrettyDecimal::from_str and Display) against the declarative grammar Model/LitSpec.v; correspondence = exhaustive short strings + random long literals through the real from_str/to_string",
         "trusted": ["rust_decimal: Decimal::try_from_i128_with_scale limits (96-bit mantissa, scale <= 28), mantissa()/scale()/is_sign_negative() accessors"],
     },
+    "C01": {
+        "props": "Props/C01.v",
+        "classify": "Run/Classify_C01.v",
+        "explanation": "theorems about Model/Book.v (transcription of report::book_keeping add_transaction/process_posting/check_balance over exact rationals); correspondence = generated ledger text through the real parser and report::process, compared posting by posting",
+        "trusted": ["rust_decimal exact + - * within the generator's range; Decimal division compared up to 1e-18 relative", "winnow/parser glue is exercised, not modelled, at this layer"],
+    },
 }
